@@ -368,6 +368,15 @@ pub(crate) fn expr(e: &Expr, s: &mut String) {
             expr(hi, s);
             s.push(')');
         }
+        // `x IN ((SELECT ..))` parses as an IN-*subquery*: a one-element list holding a bare scalar subquery is
+        // printed as the (three-valued-equivalent) comparison `x = (SELECT ..)` / `x <> (SELECT ..)`
+        Expr::InList { e, list, negated } if list.len() == 1 && matches!(list[0], Expr::Scalar(_)) => {
+            s.push('(');
+            expr(e, s);
+            s.push_str(if *negated { " <> " } else { " = " });
+            expr(&list[0], s);
+            s.push(')');
+        }
         Expr::InList { e, list, negated } => {
             s.push('(');
             expr(e, s);
